@@ -129,6 +129,7 @@ def split_formula(ctx, rule):
     # early-return guard: None iff the match ends at or before the start of the second word
     cfg = ctx.cfg(sp)
     good = False
+    threshold_problem = None
     for gbi, t in sp.iter_terms():
         bt = U.bool_switch_targets(t)
         if not bt:
@@ -142,11 +143,34 @@ def split_formula(ctx, rule):
         for k, v in lb.items():
             diff[k] = diff.get(k, 0) - v
         diff = {k: v for k, v in diff.items() if v}
+        sign = 0
         if diff in ({"arg1.subslice.1": 1, "arg2.slice.0": 1, "arg3.slice.0": -1}, {"arg1.subslice.1": 1, "arg1.slice.0": 1, "arg3.slice.0": -1}):
+            sign = 1
+        elif {k: -v for k, v in diff.items()} in ({"arg1.subslice.1": 1, "arg2.slice.0": 1, "arg3.slice.0": -1},
+                                                   {"arg1.subslice.1": 1, "arg1.slice.0": 1, "arg3.slice.0": -1}):
+            sign = -1
+        if sign:
             good = True
-        elif {k: -v for k, v in diff.items()} in ({"arg1.subslice.1": 1, "arg2.slice.0": 1, "arg3.slice.0": -1},):
-            good = True
+            # threshold: with M = end of the match - start of the second word, the attempt is given up exactly when M <= 0
+            def none_arm(tb):
+                r = U.arm_ret_expr(ctx, sp, tb)
+                return r is not None and S.strip_refs(r)[0] == "agg" and S.strip_refs(r)[2].endswith("Option::None")
+            nt, nf = none_arm(bt[1]), none_arm(bt[0])
+            if nt != nf:
+                gives_up = {}
+                for M in (-1, 0, 1, 2):
+                    truth = U.cmp_eval(e[1], sign * M + (ca - cb), 0)
+                    gives_up[M] = (truth == nt)
+                if gives_up[1] or gives_up[2]:
+                    # (that the split IS given up for M <= 0 — no empty second half — is R09.g's business)
+                    threshold_problem = "the split is given up for M in %s (M = end of match - start of second word): a match that reaches " \
+                        "into the second word must be kept" % sorted(m_ for m_, v_ in gives_up.items() if v_)
     key = "split-guard-quantity"
+    if good and threshold_problem:
+        ctx.fail(rule, "split-guard-threshold", sp.where(), "WordMatch::split: %s" % threshold_problem,
+                 {"witness": "'usbc' no longer finds 'USB-C cable'; 'mu g' no longer finds 'mug'"})
+    elif good:
+        ctx.ok(rule, "split-guard-threshold", sp.where(), "the split is never given up when the match reaches into the second word")
     if good:
         ctx.ok(rule, key, sp.where(), "the guard compares the end of the match (w1.slice.0 + subslice.1) with the start of the second word",
                nontrivial=True)
@@ -238,3 +262,33 @@ def failed_attempt_is_pure(ctx, rule):
                      "changes the scan state (e.g. sets `stop`), so later title words are never compared" % what,
                      {"witness": "English title 'Metal pipe, metallic finish', query 'metalic'"}, kind="S")
     ctx.floor(rule, "attempt_closures", n, 3)
+
+
+def plain_attempt_unguarded(ctx, rule):
+    """R04.m / R03.n / R13.j: in text_match, the alternative that compares the record word with the query word as they are
+    (`word_match(&rword, &qword)`, no join) runs the matcher on every path — no pre-test on the two words decides that
+    they cannot match.  Every gate the properties reason about lives inside word_match; a shortcut in front of it (first
+    letters differ, lengths differ, ...) rejects pairs that the gates accept."""
+    n = 0
+    for b in ctx.facts.fns():
+        if b.kind != "closure" or not b.id.startswith("matching::text::text_match"):
+            continue
+        sy = ctx.sym(b)
+        cfg = ctx.cfg(b)
+        for bi, t in b.calls():
+            if not (t.get("rcn") or t.get("cn") or "").endswith("word::word_match") or len(t["args"]) != 2:
+                continue
+            args = [S.strip_refs(sy.operand(a)) for a in t["args"]]
+            if any(x[0] == "call" and x[1].endswith("::join") for a in args for x in S.walk(a) if isinstance(x, tuple) and x):
+                continue            # the joined alternatives: their guards are R14.e
+            n += 1
+            key = "plain-attempt-unguarded"
+            if cfg.every_path_passes(0, [bi]):
+                ctx.ok(rule, key, where(b, bi, t), "the word-to-word alternative calls word_match on every path", nontrivial=True)
+            else:
+                ctx.fail(rule, key, where(b, bi, t), "the word-to-word alternative of text_match can return without calling word_match: a "
+                         "pre-test on the two words decides that they do not match",
+                         {"witness": "a typo in the first letter ('jello' for 'hello') no longer finds the record"})
+    if n == 0:
+        # loop form (no closure): the call lies in text_match itself; every iteration that reaches an unmatched pair must reach it
+        ctx.fail(rule, "anchor:plain word_match attempt", "-", "the word-to-word call of word_match in text_match was not found (fail closed)")
